@@ -148,6 +148,22 @@ def rule_invariant(ctx, repo):
             ok = True
     ctx.check(ok, "C11.invariant", "GroupBase.alter", "delegates to the owning model's alter()",
               "group alteration no longer goes through Model.alter (vin/v would diverge)", g.W())
+    # sibling rule: the group-level setter reaches the same side effects as Model.set (time constants -> dae.Tf / Teye, Bus.set ->
+    # connectivity record): it delegates to the owning model's set(), it does not write the attribute array itself
+    gs = F.method(repo, "GroupBase", "set", GROUP)
+    deleg = False
+    direct = []
+    for lp, e in Q.loops(gs.fn, "zip($models, $idx, $value)", "($m, $i, $v)"):
+        for c in calls_in(lp):
+            if isinstance(c.func, ast.Attribute) and c.func.attr == "set" and src(c.func.value) == src(e["m"]):
+                deleg = True
+        for st in ast.walk(lp):
+            if isinstance(st, ast.Assign) and isinstance(st.targets[0], ast.Subscript) and "__dict__" in src(st.targets[0]):
+                direct.append(st)
+    ctx.check(deleg and not direct, "C11.invariant", "GroupBase.set", "delegates to the owning model's set()",
+              "Group.set writes the attribute array itself (`%s`) instead of calling the model's set(): the side effects of Model.set are "
+              "skipped -- a time constant set through a group (SynGen.set('M', ...)) does not reach dae.Tf / TDS.Teye, a bus status set through "
+              "ACTopology is not recorded" % (src(direct[0]) if direct else "no delegation found"), gs.W(direct[0]) if direct else gs.W())
 
 
 def tconst_gates(repo):
